@@ -74,6 +74,8 @@ func c08World(t *testing.T, p c08Params) rt.Result {
 		var stream []byte
 		wantKeepalive := 0 // KEEPALIVE replies the prefix must trigger
 		wantUpdates := 0
+		var sentBodies [][]byte
+		fat, fatUpdates := false, 0
 		wantEst := p.State == stEstablished
 		state := p.State
 		for k := 0; k < p.Prefix; k++ {
@@ -87,9 +89,22 @@ func c08World(t *testing.T, p c08Params) rt.Result {
 				state = stEstablished
 				wantEst = true
 			case stEstablished:
-				if r.IntN(3) == 0 {
+				switch k := r.IntN(8); {
+				case k < 2:
 					stream = append(stream, wire.Keepalive()...)
-				} else {
+				case k == 2 && !fat:
+					// a type-4 message with a body: its length field still delimits it. The body
+					// looks like an UPDATE so that framing it by type instead would be visible.
+					// (RFC 4271 would also allow Bad Message Length here; see the oracle below.)
+					fat = true
+					fatUpdates = wantUpdates
+					stream = append(stream, wire.Msg(wire.TypeKeepalive, wire.Update([]byte{0xFA, 0x7F, 0xFA, 0x7F}))...)
+				case k == 3:
+					sentBodies = append(sentBodies, nil) // an UPDATE with an empty body: length field 19
+					stream = append(stream, wire.Update(nil)...)
+					wantUpdates++
+				default:
+					sentBodies = append(sentBodies, updBody(rc.ID, wantUpdates))
 					stream = append(stream, wire.Update(updBody(rc.ID, wantUpdates))...)
 					wantUpdates++
 				}
@@ -135,7 +150,19 @@ func c08World(t *testing.T, p c08Params) rt.Result {
 		if nk != wantKeepalive {
 			w.Violate("%s a well-formed OPEN preceding the faulty header was not answered by KEEPALIVE", desc)
 		}
-		if len(got) != 1 || got[0].Type != wire.TypeNotification {
+		fatRejected := false
+		if fat && len(got) == 1 && got[0].Type == wire.TypeNotification && got[0].Notif.Code == 1 && got[0].Notif.Sub == 2 && len(got[0].Notif.Data) == 0 {
+			// the KEEPALIVE with a body was itself refused with Bad Message Length: also
+			// correct; nothing after it may have been interpreted
+			if _, _, ssx := s.mon.Snapshot(); len(ssx) > sess0 && len(ssx[sess0].Updates) == fatUpdates {
+				fatRejected = true
+				wantUpdates = fatUpdates
+				sentBodies = sentBodies[:fatUpdates]
+			}
+		}
+		if fatRejected {
+			// judged above
+		} else if len(got) != 1 || got[0].Type != wire.TypeNotification {
 			w.Violate("%s expected exactly one NOTIFICATION for header faults %v, got [%s]", desc, faults, typesOf(got))
 		} else {
 			n := got[0].Notif
@@ -169,8 +196,8 @@ func c08World(t *testing.T, p c08Params) rt.Result {
 				w.Violate("%s %d UPDATEs delivered, want %d (those before the fault, none after)", desc, len(ss[0].Updates), wantUpdates)
 			}
 			for i, u := range ss[0].Updates {
-				if string(u.Body) != string(updBody(rc.ID, i)) {
-					w.Violate("%s UPDATE %d delivered with body %x", desc, i, u.Body)
+				if i < len(sentBodies) && string(u.Body) != string(sentBodies[i]) {
+					w.Violate("%s UPDATE %d delivered with body %x, sent %x (messages are delimited by the length field alone)", desc, i, u.Body, sentBodies[i])
 				}
 			}
 			if ss[0].CloseExit < 0 {
